@@ -329,7 +329,7 @@ def check_C03(ctx):
 
 def check_C04(ctx):
     planner_family(ctx, "C04", qdeps=1)
-    exec_family(ctx, "C04", extra=["--modes", "disp,par,seq,tlonly,disp", "--ptl", 0.1, "--ppanic", 0.15, "--pool1", 0.15], mc=("tl", "batch"),
+    exec_family(ctx, "C04", extra=["--modes", "disp,par,seq,tlonly,disp", "--ptl", 0.1, "--ppanic", 0.15, "--pool1", 0.15, "--pnest", 0.06], mc=("tl", "batch"),
                 mc_thorough=("flat2", "deps", "batchseq"))
 
 
@@ -341,7 +341,8 @@ def check_C05(ctx):
 
 
 def check_C07(ctx):
-    exec_family(ctx, "C07", extra=["--pbatch", 0.3, "--depth", 3], mc=("batch", "batchseq"), big=False)
+    # (recovered panics too: the inner dispatchers must stay usable - exactly-once on every later inner dispatch)
+    exec_family(ctx, "C07", extra=["--pbatch", 0.3, "--depth", 3, "--ppanic", 0.2], mc=("batch", "batchseq"), big=False)
     exec_i2s(ctx, TRACE_INVS["C07"], count=6 if ctx.quick() else 60, nmin=30, nmax=70, nres=10, dispatches=2,
              extra=["--pbatch", 0.12, "--depth", 2], seed_off=5)
     # the scenario of known finding KF1 (reported as KNOWN-FINDING while listed)
